@@ -1,4 +1,5 @@
 """C19 — Static analysis reports everything a render can touch."""
+# (the identifier a render tag resolves for an inline snippet is recorded as a name lookup, not judged as a variable path)
 
 from __future__ import annotations
 
@@ -27,20 +28,33 @@ ROOT = "main"
 FUEL = 400
 RUN_FN = "run_case"
 CHUNK = 60
+RAW_SUFFIX = ":inline-snippet"
 
 # ============================================================================ generator AST
-# path  = (root, [seg...])            seg: str (key) | int (index)
+# path  = (root, [seg...])            seg: str (key) | int (index) | ("sub", root, [str|int...]) (a nested path)
+# iter  = ("path", path) | ("range", atom, atom)
 # atom  = ("lit", value) | ("var", path)
 # expr  = (atom, [(filter_name, [atom...])...])
 # cond  = ("t", atom) | ("eq", atom, atom) | ("and", cond, cond) | ("or", cond, cond)     right-nested
 # node  = ("text", s) | ("out", expr) | ("assign", x, expr) | ("capture", x, body) | ("for", x, path, body, els)
-#       | ("if", cond, thn, els) | ("with", [(k, atom)], body) | ("macro", m, [(p, atom|None)], body)
+#       | ("if", neg, cond, thn, [(cond, body)...], els) | ("case", atom, [([atom...], body)...], els)
+#       | ("tablerow", x, iter, body) | ("cycle", atom|None, [atom...]) | ("liquid", body) | ("echo", expr) | ("decr", x)
+#       | ("elsif", cond, body) / ("when", subj, [atom...], body): only as children of if / case (see children_of) | ("with", [(k, atom)], body) | ("macro", m, [(p, atom|None)], body)
 #       | ("call", m, [atom], [(k, atom)]) | ("include", p, (path, alias|None)|None, [(k, atom)])
 #       | ("render", p, (isfor, path, alias|None)|None, [(k, atom)]) | ("incr", x)
 # program = {name: [node...]}; the root template is "main"
 
 TAG_OF = {"assign": "assign", "capture": "capture", "for": "for", "if": "if", "with": "with", "macro": "macro",
-          "call": "call", "include": "include", "render": "render", "incr": "increment"}
+          "call": "call", "include": "include", "render": "render", "incr": "increment", "decr": "decrement",
+          "case": "case", "tablerow": "tablerow", "cycle": "cycle", "liquid": "liquid", "echo": "echo"}
+
+
+def IF(cond, thn, els):
+    return ("if", False, cond, thn, [], els)
+
+
+def FOR(x, path, body, els):
+    return ("for", x, ("path", path), body, els)
 
 
 def tup(x):
@@ -63,16 +77,18 @@ class Printed:
 
 def children_of(n):
     k = n[0]
-    if k in ("capture",):
+    if k in ("capture", "with", "elsif"):
         return n[2]
-    if k in ("with",):
-        return n[2]
-    if k == "macro":
+    if k in ("macro", "when", "tablerow"):
         return n[3]
-    if k in ("for",):
+    if k == "for":
         return n[3] + n[4]
     if k == "if":
-        return n[2] + n[3]
+        return n[3] + [("elsif", c, b) for c, b in n[4]] + n[5]
+    if k == "case":
+        return [("when", n[1], a, b) for a, b in n[2]] + n[3]
+    if k == "liquid":
+        return n[1]
     return []
 
 
@@ -89,7 +105,10 @@ def lit_src(v):
 def path_src(p):
     out = p[0]
     for s in p[1]:
-        out += f"[{s}]" if isinstance(s, int) else f".{s}"
+        if isinstance(s, (tuple, list)):
+            out += "[" + path_src((s[1], s[2])) + "]"
+        else:
+            out += f"[{s}]" if isinstance(s, int) else f".{s}"
     return out
 
 
@@ -98,17 +117,29 @@ def print_program(prog) -> Printed:
     for name, body in prog.items():
         buf = []
         pos = [0]
+        liq = [0]      # > 0: inside a liquid tag (line syntax)
 
         def w(s):
             buf.append(s)
             pos[0] += len(s)
 
+        def w_path(p, nid):
+            # register the path and, at their own offsets, the paths nested in it
+            pr.path_at[(name, pos[0])] = (nid, p)
+            w(p[0])
+            for sg in p[1]:
+                if isinstance(sg, (tuple, list)):
+                    w("[")
+                    w_path((sg[1], sg[2]), nid)
+                    w("]")
+                else:
+                    w(f"[{sg}]" if isinstance(sg, int) else f".{sg}")
+
         def w_atom(a, nid):
             if a[0] == "lit":
                 w(lit_src(a[1]))
             else:
-                pr.path_at[(name, pos[0])] = nid
-                w(path_src(a[1]))
+                w_path(a[1], nid)
 
         def w_expr(e, nid):
             w_atom(e[0], nid)
@@ -137,10 +168,29 @@ def print_program(prog) -> Printed:
                 w(f"{k}: ")
                 w_atom(a, nid)
 
-        def w_tag(n, nid):
-            w("{% ")
-            pr.tag_at[(name, pos[0])] = nid
-            w(TAG_OF[n[0]])
+        def w_iter(it, nid):
+            if it[0] == "path":
+                w_path(it[1], nid)
+            else:
+                w("(")
+                w_atom(it[1], nid)
+                w("..")
+                w_atom(it[2], nid)
+                w(")")
+
+        def w_open(tag, nid=None):
+            if not liq[0]:
+                w("{% ")
+            if nid is not None:
+                pr.tag_at[(name, pos[0])] = nid
+            w(tag)
+
+        def w_close():
+            w("\n" if liq[0] else " %}")
+
+        def w_word(tag):       # a tag without arguments: else, endif, ...
+            w_open(tag)
+            w_close()
 
         def w_nodes(ns, prefix, start=0):
             for i, n in enumerate(ns):
@@ -151,51 +201,113 @@ def print_program(prog) -> Printed:
             pr.nodes[nid] = n
             k = n[0]
             if k == "text":
+                assert not liq[0]
                 w(n[1])
             elif k == "out":
+                assert not liq[0]
                 pr.tag_at[(name, pos[0])] = nid
                 w("{{ ")
                 w_expr(n[1], nid)
                 w(" }}")
+            elif k == "echo":
+                w_open("echo", nid)
+                w(" ")
+                w_expr(n[1], nid)
+                w_close()
             elif k == "assign":
-                w_tag(n, nid)
+                w_open("assign", nid)
                 w(f" {n[1]} = ")
                 w_expr(n[2], nid)
-                w(" %}")
+                w_close()
             elif k == "capture":
-                w_tag(n, nid)
-                w(f" {n[1]} %}}")
+                w_open("capture", nid)
+                w(f" {n[1]}")
+                w_close()
                 w_nodes(n[2], idx)
-                w("{% endcapture %}")
+                w_word("endcapture")
             elif k == "for":
-                w_tag(n, nid)
+                w_open("for", nid)
                 w(f" {n[1]} in ")
-                w_atom(("var", n[2]), nid)
-                w(" %}")
+                w_iter(n[2], nid)
+                w_close()
                 w_nodes(n[3], idx)
                 if n[4]:
-                    w("{% else %}")
+                    w_word("else")
                     w_nodes(n[4], idx, len(n[3]))
-                w("{% endfor %}")
+                w_word("endfor")
+            elif k == "tablerow":
+                w_open("tablerow", nid)
+                w(f" {n[1]} in ")
+                w_iter(n[2], nid)
+                w_close()
+                w_nodes(n[3], idx)
+                w_word("endtablerow")
             elif k == "if":
-                w_tag(n, nid)
+                _, neg, cond, thn, alts, els = n
+                w_open("unless" if neg else "if", nid)
                 w(" ")
-                w_cond(n[1], nid)
-                w(" %}")
-                w_nodes(n[2], idx)
-                if n[3]:
-                    w("{% else %}")
-                    w_nodes(n[3], idx, len(n[2]))
-                w("{% endif %}")
+                w_cond(cond, nid)
+                w_close()
+                w_nodes(thn, idx)
+                for j, (c, b) in enumerate(alts):
+                    aidx = idx + (len(thn) + j,)
+                    pr.nodes[(name, aidx)] = ("elsif", c, b)
+                    w_open("elsif")
+                    w(" ")
+                    w_cond(c, (name, aidx))
+                    w_close()
+                    w_nodes(b, aidx)
+                if els:
+                    w_word("else")
+                    w_nodes(els, idx, len(thn) + len(alts))
+                w_word("endunless" if neg else "endif")
+            elif k == "case":
+                _, subj, whens, els = n
+                w_open("case", nid)
+                w(" ")
+                w_atom(subj, nid)
+                w_close()
+                for j, (atoms, b) in enumerate(whens):
+                    aidx = idx + (j,)
+                    pr.nodes[(name, aidx)] = ("when", subj, atoms, b)
+                    w_open("when")
+                    for i, a in enumerate(atoms):
+                        w(" " if i == 0 else ", ")
+                        w_atom(a, (name, aidx))
+                    w_close()
+                    w_nodes(b, aidx)
+                if els:
+                    w_word("else")
+                    w_nodes(els, idx, len(whens))
+                w_word("endcase")
+            elif k == "cycle":
+                w_open("cycle", nid)
+                w(" ")
+                if n[1] is not None:
+                    w_atom(n[1], nid)
+                    w(": ")
+                for i, a in enumerate(n[2]):
+                    w("" if i == 0 else ", ")
+                    w_atom(a, nid)
+                w_close()
+            elif k == "liquid":
+                assert not liq[0]
+                w("{% ")
+                pr.tag_at[(name, pos[0])] = nid
+                w("liquid\n")
+                liq[0] += 1
+                w_nodes(n[1], idx)
+                liq[0] -= 1
+                w("%}")
             elif k == "with":
-                w_tag(n, nid)
+                w_open("with", nid)
                 w(" ")
                 w_kwargs(n[1], nid)
-                w(" %}")
+                w_close()
                 w_nodes(n[2], idx)
-                w("{% endwith %}")
+                w_word("endwith")
             elif k == "macro":
-                w_tag(n, nid)
+                w_open("macro", nid)
                 w(f" {n[1]}")
                 for i, (p, d) in enumerate(n[2]):
                     w(" " if i == 0 else ", ")
@@ -203,11 +315,11 @@ def print_program(prog) -> Printed:
                     if d is not None:
                         w(": ")
                         w_atom(d, nid)
-                w(" %}")
+                w_close()
                 w_nodes(n[3], idx)
-                w("{% endmacro %}")
+                w_word("endmacro")
             elif k == "call":
-                w_tag(n, nid)
+                w_open("call", nid)
                 w(f" {n[1]}")
                 first = True
                 for a in n[2]:
@@ -219,30 +331,31 @@ def print_program(prog) -> Printed:
                     first = False
                     w(f"{kk}: ")
                     w_atom(a, nid)
-                w(" %}")
+                w_close()
             elif k == "include":
-                w_tag(n, nid)
+                w_open("include", nid)
                 w(f" '{n[1]}'")
                 if n[2] is not None:
                     w(" with ")
-                    w_atom(("var", n[2][0]), nid)
+                    w_path(n[2][0], nid)
                     if n[2][1] is not None:
                         w(f" as {n[2][1]}")
                 w_kwargs(n[3], nid, first=False)
-                w(" %}")
+                w_close()
             elif k == "render":
-                w_tag(n, nid)
+                w_open("render", nid)
                 w(f" '{n[1]}'")
                 if n[2] is not None:
                     w(" for " if n[2][0] else " with ")
-                    w_atom(("var", n[2][1]), nid)
+                    w_path(n[2][1], nid)
                     if n[2][2] is not None:
                         w(f" as {n[2][2]}")
                 w_kwargs(n[3], nid, first=False)
-                w(" %}")
-            elif k == "incr":
-                w_tag(n, nid)
-                w(f" {n[1]} %}}")
+                w_close()
+            elif k in ("incr", "decr"):
+                w_open(TAG_OF[k], nid)
+                w(f" {n[1]}")
+                w_close()
             else:
                 raise ValueError(k)
 
@@ -268,8 +381,20 @@ def g_value(v):
     raise TypeError(v)
 
 
+def g_fseg(s):
+    return f"FIdx {g_Z(s)}" if isinstance(s, int) else f"FKey {g_str(s)}"
+
+
 def g_seg(s):
+    if isinstance(s, (tuple, list)):
+        return f"SSub (Build_fpath {g_str(s[1])} {g_list(g_fseg(x) for x in s[2])})"
     return f"SIdx {g_Z(s)}" if isinstance(s, int) else f"SKey {g_str(s)}"
+
+
+def g_iter(it):
+    if it[0] == "path":
+        return f"(IPath {g_path(it[1])})"
+    return f"(IRange ({g_atom(it[1])}) ({g_atom(it[2])}))"
 
 
 def g_segs(segs):
@@ -315,10 +440,24 @@ def g_node(n):
         return f"NAssign {g_str(n[1])} {g_expr(n[2])}"
     if k == "capture":
         return f"NCapture {g_str(n[1])} {g_nodes(n[2])}"
+    if k == "echo":
+        return f"NEcho {g_expr(n[1])}"
     if k == "for":
-        return f"NFor {g_str(n[1])} {g_path(n[2])} {g_nodes(n[3])} {g_nodes(n[4])}"
+        return f"NFor {g_str(n[1])} {g_iter(n[2])} {g_nodes(n[3])} {g_nodes(n[4])}"
+    if k == "tablerow":
+        return f"NTablerow {g_str(n[1])} {g_iter(n[2])} {g_nodes(n[3])}"
     if k == "if":
-        return f"NIf ({g_cond(n[1])}) {g_nodes(n[2])} {g_nodes(n[3])}"
+        alts = g_list(f"({g_cond(c)}, {g_nodes(b)})" for c, b in n[4])
+        return f"NIf {g_bool(n[1])} ({g_cond(n[2])}) {g_nodes(n[3])} {alts} {g_nodes(n[5])}"
+    if k == "case":
+        whens = g_list(f"({g_list(g_atom(a) for a in atoms)}, {g_nodes(b)})" for atoms, b in n[2])
+        return f"NCase ({g_atom(n[1])}) {whens} {g_nodes(n[3])}"
+    if k == "cycle":
+        return f"NCycle {g_opt(n[1], lambda a: '(' + g_atom(a) + ')')} {g_list(g_atom(a) for a in n[2])}"
+    if k == "liquid":
+        return f"NLiquid {g_nodes(n[1])}"
+    if k == "decr":
+        return f"NDecrement {g_str(n[1])}"
     if k == "with":
         return f"NWith {g_kws(n[1])} {g_nodes(n[2])}"
     if k == "macro":
@@ -407,7 +546,11 @@ class Tracer:
     def read(self, path, token, hit):
         root = path[0]
         segs = list(path[1:])
-        nid = self.nid_of(token, self.printed.path_at) if token is not None else None
+        hitp = self.nid_of(token, self.printed.path_at) if token is not None else None
+        nid = None
+        if hitp is not None:
+            nid, sp = hitp          # the path as written (a nested path stays a nested path)
+            root, segs = sp[0], list(sp[1])
         upto = None
         if self.frames and nid is not None and self.frames[-1][1] == nid:
             upto = len(self.frames) - 1     # a read made by the include/render/call tag itself
@@ -428,9 +571,12 @@ class Tracer:
             return True
         if tok.value == "macro":
             nid = self.nid_of(tok, self.printed.tag_at)
-            self.macros[(id(context), self.printed.nodes[nid][1])] = self.chain()
+            if nid is not None:
+                self.macros[(id(context), self.printed.nodes[nid][1])] = self.chain()
         if tok.value == "call":
             nid = self.nid_of(tok, self.printed.tag_at)
+            if nid is None:
+                return False
             name = self.printed.nodes[nid][1]
             self.frames.append(("call", nid, self.macros.get((id(context), name), ())))
             return True
@@ -490,7 +636,9 @@ def env_class():
             TR.hit = False
             r = super().resolve(name, token=token, default=default)
             if TR.on:
-                TR.read([name], token, TR.hit)
+                # a single-name lookup: the render tag resolving the identifier of an inline snippet. The name is bound
+                # by the snippet tag (reported under locals); it is recorded, but not judged as a variable path
+                TR.events.append(("name", name))
             return r
 
         def filter(self, name, token):  # noqa: A003
@@ -571,6 +719,7 @@ def make_env(printed):
         _ENV.add_tag(ex.MacroTag)
         _ENV.add_tag(ex.CallTag)
         _ENV.add_tag(ex.WithTag)
+        _ENV.add_tag(ex.SnippetTag)
     _ENV.loader = DictLoader(dict(printed.src))
     return _ENV
 
@@ -582,8 +731,11 @@ def observe_analysis(env, use_async):
     except Exception as e:  # noqa: BLE001
         return ("err", classify_exc(e))
 
+    def seg(x):
+        return ("sub", x[0], list(x[1:])) if isinstance(x, list) else x
+
     def grouped(d):
-        return [(root, [list(v.segments[1:]) for v in vs]) for root, vs in d.items()]
+        return [(root, [[seg(x) for x in v.segments[1:]] for v in vs]) for root, vs in d.items()]
 
     def counts(d):
         return [(k, len(v)) for k, v in d.items()]
@@ -619,12 +771,14 @@ def in_scope_of(n):
 
 
 def tscope_of(n):
-    return [n[1]] if n[0] in ("assign", "capture", "incr") else []
+    return [n[1]] if n[0] in ("assign", "capture", "incr", "decr") else []
 
 
 def bscope_of(n):
     if n[0] == "for":
         return [n[1], "forloop"]
+    if n[0] == "tablerow":
+        return [n[1], "tablerowloop"]
     if n[0] == "with":
         return [k for k, _ in n[1]]
     if n[0] == "macro":
@@ -714,14 +868,23 @@ class Gen:
 
     def path(self, sink_ok):
         r = self.rng
-        pool = GEN + (SINK + ["forloop"] if sink_ok else []) + ["xs", "obj"]
+        pool = GEN + (SINK + ["forloop", "tablerowloop"] if sink_ok else []) + ["xs", "obj"]
         root = r.choice(pool)
         segs = []
         if root == "forloop":
-            segs = [r.choice(["index", "length"])]
+            segs = r.choice([["index"], ["length"], ["parentloop", "index"]])
+        elif root == "tablerowloop":
+            segs = [r.choice(["index", "col"])]
         else:
             while r.random() < 0.25 and len(segs) < 2:
-                segs.append(r.choice(KEYS) if r.random() < 0.6 else r.choice([0, 1]))
+                k = r.random()
+                if k < 0.5:
+                    segs.append(r.choice(KEYS))
+                elif k < 0.8:
+                    segs.append(r.choice([0, 1]))
+                else:   # a nested path: its value is the key
+                    sub = [r.choice(KEYS + [0])] if r.random() < 0.4 else []
+                    segs.append(("sub", r.choice(GEN + ["obj"]), sub))
         return (root, segs)
 
     def lit(self):
@@ -753,6 +916,14 @@ class Gen:
             return ("t", ("var", self.path(False)))
         return ("eq", ("var", self.path(False)), ("lit", r.choice([0, 1, "s1"])))
 
+    def iter_src(self):
+        r = self.rng
+        if r.random() < 0.25:
+            lo = ("lit", r.choice([0, 1])) if r.random() < 0.6 else ("var", self.path(False))
+            hi = ("lit", r.choice([0, 1, 2, 3])) if r.random() < 0.6 else ("var", self.path(False))
+            return ("range", lo, hi)
+        return ("path", r.choice([("xs", []), ("obj", []), ("obj", ["l"]), self.path(False)]))
+
     def kws(self, names, lo=0, hi=2):
         r = self.rng
         out = []
@@ -765,52 +936,76 @@ class Gen:
             out.append((k, self.atom(k in SINK)))
         return out
 
-    def body(self, depth, refs, inc_ok, lo=1, hi=4):
-        return [self.node(depth, refs, inc_ok) for _ in range(self.rng.randrange(lo, hi + 1))]
+    def body(self, depth, refs, inc_ok, lo=1, hi=4, liq=False):
+        return [self.node(depth, refs, inc_ok, liq) for _ in range(self.rng.randrange(lo, hi + 1))]
 
-    def node(self, depth, refs, inc_ok):
-        """refs: [(partial name, render_safe)] this template may reference; inc_ok: include allowed here."""
+    def node(self, depth, refs, inc_ok, liq=False):
+        """refs: [(partial name, render_safe)] this template may reference; inc_ok: include allowed here;
+        liq: inside a liquid tag (no text, no output statement, no nested liquid)."""
         r = self.rng
-        kinds = ["out"] * 5 + ["assign"] * 3 + ["incr", "text", "call"]
+        kinds = ["echo"] * 2 + ["assign"] * 3 + ["incr", "decr", "cycle", "call"]
+        if not liq:
+            kinds += ["out"] * 4 + ["text"]
         if depth < 3:
-            kinds += ["for"] * 3 + ["if"] * 2 + ["with"] * 2 + ["capture", "macro"]
+            kinds += ["for"] * 3 + ["if"] * 3 + ["case"] * 2 + ["with"] * 2 + ["capture", "macro", "tablerow"]
+            if not liq:
+                kinds += ["liquid"]
         if refs:
             kinds += ["include"] * 4 + ["render"] * 4
         k = r.choice(kinds)
+        sub = lambda lo, hi, refs_=refs, inc=inc_ok: self.body(depth + 1, refs_, inc, lo, hi, liq)  # noqa: E731
         if k == "text":
             return ("text", r.choice(["t", "u "]))
         if k == "out":
             return ("out", self.expr(True))
+        if k == "echo":
+            return ("echo", self.expr(True))
         if k == "assign":
             e = self.expr(r.random() < 0.4)
-            sinky = bool(e[1]) or (e[0][0] == "var" and e[0][1][0] in SINK + ["forloop"])
+            sinky = bool(e[1]) or (e[0][0] == "var" and e[0][1][0] in SINK + ["forloop", "tablerowloop"])
             return ("assign", r.choice(SINK if sinky else GEN), e)
         if k == "incr":
             return ("incr", r.choice(["n", "a"]))
+        if k == "decr":
+            return ("decr", r.choice(["n", "b"]))
+        if k == "cycle":
+            # the group name is a single token: a literal or a one-segment path
+            group = (self.lit() if r.random() < 0.4 else ("var", (r.choice(GEN + SINK), []))) if r.random() < 0.3 else None
+            return ("cycle", group, [self.atom(True) for _ in range(r.randrange(1, 4))])
         if k == "capture":
-            return ("capture", r.choice(SINK), self.body(depth + 1, refs, inc_ok, 1, 2))
+            return ("capture", r.choice(SINK), sub(1, 2))
         if k == "for":
-            it = r.choice([("xs", []), ("obj", []), ("obj", ["l"]), self.path(False)])
-            els = self.body(depth + 1, refs, inc_ok, 1, 2) if r.random() < 0.25 else []
-            return ("for", r.choice(GEN), it, self.body(depth + 1, refs, inc_ok, 1, 3), els)
+            els = sub(1, 2) if r.random() < 0.25 else []
+            return ("for", r.choice(GEN), self.iter_src(), sub(1, 3), els)
+        if k == "tablerow":
+            return ("tablerow", r.choice(GEN), self.iter_src(), sub(1, 2))
         if k == "if":
-            els = self.body(depth + 1, refs, inc_ok, 1, 2) if r.random() < 0.4 else []
-            return ("if", self.cond(), self.body(depth + 1, refs, inc_ok, 1, 3), els)
+            alts = [(self.cond(), sub(1, 2)) for _ in range(r.choice([0, 0, 1, 2]))]
+            els = sub(1, 2) if r.random() < 0.4 else []
+            return ("if", r.random() < 0.25, self.cond(), sub(1, 3), alts, els)
+        if k == "case":
+            whens = []
+            for _ in range(r.randrange(1, 4)):
+                whens.append(([self.lit() for _ in range(r.choice([1, 1, 2]))], sub(1, 2)))
+            els = sub(1, 2) if r.random() < 0.5 else []
+            return ("case", self.atom(False, 0.1), whens, els)
+        if k == "liquid":
+            return ("liquid", self.body(depth + 1, refs, inc_ok, 1, 4, True))
         if k == "with":
-            return ("with", self.kws(GEN + SINK, 1, 2) or [("a", self.lit())], self.body(depth + 1, refs, inc_ok, 1, 3))
+            return ("with", self.kws(GEN + SINK, 1, 2) or [("a", self.lit())], sub(1, 3))
         if k == "macro":
             name = r.choice(["m1", "m2"])
             params = []
             for p in r.sample(GEN, r.randrange(0, 3)):
                 params.append((p, self.atom(False) if r.random() < 0.4 else None))
             safe = [x for x in refs if x[1]] if not self.wild else refs
-            return ("macro", name, params, self.body(depth + 1, safe, self.wild and inc_ok, 1, 3))
+            return ("macro", name, params, self.body(depth + 1, safe, bool(self.wild) and inc_ok, 1, 3, liq))
         if k == "call":
             pos = [self.atom(False) for _ in range(r.randrange(0, 3))]
             return ("call", r.choice(["m1", "m2"]), pos, self.kws(GEN, 0, 2))
         if k == "include":
             if not inc_ok:
-                return ("out", self.expr(True))
+                return ("echo", self.expr(True))
             p = r.choice(refs)[0]
             bind = None
             if r.random() < 0.35:
@@ -819,7 +1014,7 @@ class Gen:
         if k == "render":
             cands = refs if self.wild else [x for x in refs if x[1]]
             if not cands:
-                return ("out", self.expr(True))
+                return ("echo", self.expr(True))
             p = r.choice(cands)[0]
             bind = None
             if r.random() < 0.4:
@@ -932,7 +1127,7 @@ def OUT(root, *fs):
 
 SEEDS = [
     # a shared-scope partial reached inside a block binding x and again outside it
-    ({ROOT: [("for", "x", ("xs", []), [("include", "p1", None, [])], []), ("include", "p1", None, [])],
+    ({ROOT: [FOR("x", ("xs", []), [("include", "p1", None, [])], []), ("include", "p1", None, [])],
       "p1": [("text", "[p1]"), OUT("x")]}, [{"xs": [1, 2], "x": "G"}, {"x": "G"}, {}]),
     ({ROOT: [("include", "p1", None, [("x", ("lit", 1))]), ("include", "p1", None, [])],
       "p1": [("text", "[p1]"), OUT("x")]}, [{"x": "G"}, {}]),
@@ -945,17 +1140,17 @@ SEEDS = [
     ({ROOT: [("include", "p1", None, []), ("assign", "x", (("lit", 1), [])), ("include", "p1", None, [])],
       "p1": [("text", "[p1]"), OUT("x")]}, [{"x": "G"}]),
     # a partial first met while its parent is revisited for globals only
-    ({ROOT: [("if", ("t", V("go")), [("render", ROOT, None, [("go", ("lit", False))])], []), ("render", "p1", None, [])],
+    ({ROOT: [IF(("t", V("go")), [("render", ROOT, None, [("go", ("lit", False))])], []), ("render", "p1", None, [])],
       "p1": [("text", "[p1]"), OUT("y", ("upcase", [])), ("assign", "z", (("lit", 1), []))]},
      [{"go": True, "y": "hello"}, {"y": "h"}]),
-    ({ROOT: [("if", ("t", V("go")), [("render", ROOT, None, [("go", ("lit", False))])], []), ("include", "p1", None, [])],
+    ({ROOT: [IF(("t", V("go")), [("render", ROOT, None, [("go", ("lit", False))])], []), ("include", "p1", None, [])],
       "p1": [("text", "[p1]"), OUT("y", ("upcase", []))]}, [{"go": True, "y": "hello"}]),
     # an include inside a rendered partial writes the root template's scope
-    ({ROOT: [("if", ("t", V("go")), [("render", "p1", None, [])], []), OUT("v")],
+    ({ROOT: [IF(("t", V("go")), [("render", "p1", None, [])], []), OUT("v")],
       "p1": [("text", "[p1]"), ("include", "p2", None, [])], "p2": [("text", "[p2]"), ("assign", "v", (("lit", 1), []))]},
      [{"v": "G"}, {"v": "G", "go": True}]),
     # macros, captures, counters
-    ({ROOT: [("for", "x", ("xs", []), [("macro", "m1", [("a", V("x"))], [OUT("a"), OUT("x"), OUT("b")])], []),
+    ({ROOT: [FOR("x", ("xs", []), [("macro", "m1", [("a", V("x"))], [OUT("a"), OUT("x"), OUT("b")])], []),
              ("call", "m1", [], []), ("call", "m1", [V("b")], [("k", V("c"))]), ("incr", "n"), OUT("n"),
              ("capture", "w", [OUT("w"), OUT("forloop", )]), OUT("w")]},
      [{"xs": [1], "x": "G", "b": 2, "c": 3, "n": "N"}, {}]),
@@ -963,7 +1158,45 @@ SEEDS = [
     ({ROOT: [("render", "p1", (False, ("y", []), "x"), [])], "p1": [("text", "[p1]"), OUT("p1"), OUT("x")]}, [{"p1": "G", "y": 1}, {"y": 2}]),
     ({ROOT: [("render", "p1", (True, ("ys", []), "x"), [])], "p1": [("text", "[p1]"), OUT("p1"), OUT("x")]}, [{"p1": "G", "ys": [1, 2]}]),
     ({ROOT: [("render", "p1", (False, ("y", []), None), [])], "p1": [("text", "[p1]"), OUT("p1")]}, [{"p1": "G", "y": 1}]),
+    # the constructs added when the model was widened: unless/elsif, case/when (a value met twice renders twice), tablerow,
+    # ranges, cycle, decrement, echo, liquid bodies, nested paths
+    ({ROOT: [("if", True, ("t", V("u")), [OUT("a")], [(("eq", V("v"), ("lit", 1)), [("assign", "x", (("lit", 1), []))]),
+                                                     (("t", V("z")), [OUT("x")])], [OUT("x"), OUT("b")]), OUT("x")]},
+     [{"u": True, "v": 1, "x": "G"}, {"u": True, "z": 1, "x": "G"}, {"u": 1, "x": "G"}, {"x": "G"}]),
+    ({ROOT: [("case", V("s"), [([("lit", 1), ("lit", 1)], [OUT("a"), ("assign", "y", (("lit", 2), []))]),
+                               ([("lit", "s1")], [OUT("y")])], [OUT("y"), OUT("c")]), OUT("y")]},
+     [{"s": 1, "y": "G"}, {"s": "s1", "y": "G"}, {"s": 5, "y": "G"}, {}]),
+    ({ROOT: [("tablerow", "i", ("range", ("lit", 1), V("n")), [OUT("i"), ("out", (V("tablerowloop", "index"), [])), OUT("forloop")]),
+             OUT("i"), ("for", "j", ("range", V("lo"), ("lit", 2)), [OUT("j")], [OUT("lo")])]},
+     [{"n": 2, "i": "G", "lo": 1}, {"n": "s1", "lo": 5}, {"i": "G"}]),
+    ({ROOT: [("cycle", V("g"), [V("a"), ("lit", 1)]), ("cycle", None, [V("b")]), ("decr", "d"), OUT("d"), ("incr", "d"), OUT("d"),
+             ("echo", (V("e"), [("append", [V("f")])])),
+             ("liquid", [("assign", "q", (("var", ("a", [("sub", "b", ["k"])])), [("upcase", [])])),
+                         ("if", False, ("t", V("q")), [("echo", (V("x"), []))], [(("t", V("z")), [("echo", (V("y"), []))])], []),
+                         ("for", "x", ("path", ("xs", [])), [("echo", (V("x"), [])), ("include", "p1", None, [])], [])]),
+             ("include", "p1", None, [])],
+      "p1": [("text", "[p1]"), OUT("x"), ("out", (("var", ("obj", [("sub", "x", []), 0])), []))]},
+     [{"a": {"kk": 1}, "b": {"k": "kk"}, "x": "l", "xs": ["k", "l"], "obj": {"k": [7], "l": [8]}, "d": "D", "g": "G", "e": 1, "f": 2},
+      {"x": "k"}]),
 ]
+
+
+# programs outside the modelled language, given as source text: judged by the oracle (trace within report) only
+RAW = [
+    # inline snippets rendered by identifier
+    ({ROOT: "{% snippet a %}{{ x }}{% endsnippet %}{% snippet b %}{{ y | upcase }}{% assign q = 1 %}{% endsnippet %}"
+            "{% render a %}{% render b %}"}, [{"x": "X", "y": "y"}]),
+    ({ROOT: "{% snippet a %}{{ x }}{% endsnippet %}{% render a %}{% render a, x: 1 %}"}, [{"x": "X"}]),
+    ({ROOT: "{% snippet a %}{{ x | downcase }}{% endsnippet %}{% for i in (1..2) %}{% render a, i: i %}{% endfor %}"}, [{"x": "X"}]),
+]
+
+
+class RawPrinted:
+    def __init__(self, src):
+        self.src = dict(src)
+        self.tag_at = {}
+        self.path_at = {}
+        self.nodes = {}
 
 
 # ============================================================================ the check
@@ -973,18 +1206,23 @@ def judge(prog, printed, ana, events, recursive):
     if ana[0] != "ok":
         return bad
     v, g, _l, f, t = ana[1]
-    vset = {(root, tuple(map(repr, s))) for root, sl in v for s in sl}
+    def norm(segs):
+        return tuple(("sub", x[1], tuple(x[2])) if isinstance(x, (tuple, list)) else x for x in segs)
+
+    vset = {(root, norm(s)) for root, sl in v for s in sl}
     gset = {root for root, _ in g}
     fset = {k for k, _ in f}
     tset = {k for k, _ in t}
     for e in events:
         if e[0] == "read":
             _, root, segs, hit, exc = e
-            if (root, tuple(map(repr, segs))) not in vset:
+            if (root, norm(segs)) not in vset:
                 bad.append(("c19-variable-not-reported", f"variable path {path_src((root, segs))} is read but not reported"))
             if hit and exc is False and root not in gset:
                 bad.append(("c19-global-not-reported", f"{root} is read from the render arguments at a reference where "
                             "no enclosing block binds it and no assignment precedes it, but is not reported as a global"))
+        elif e[0] == "name":
+            pass
         elif e[0] == "filter":
             if e[1] not in fset:
                 bad.append(("c19-filter-not-reported", f"filter {e[1]} is applied but not reported"))
@@ -1009,15 +1247,18 @@ def run_case(prog, datas):
 
 def run(ck: Check) -> None:
     ck.rule = (
-        "programs = a root template and 1..3 partials over: output with filters (path arguments), assign, capture, increment, "
-        "for/else over paths, if/else with and/or/==, with, macro (defaults)/call (positional, keyword), include (with .. as, "
-        "arguments), render (with/for .. as, arguments); names drawn from a pool of nine so that render arguments, locals, loop "
-        "variables, parameters, counters and partial arguments shadow each other; partials are included and rendered several times "
-        "from different scopes. Ten seeds (witnesses of the three repaired defects and their neighbours) run first; then seeded random "
-        "programs: 6/8 'tame' (acyclic, include only where it can run), 1/8 'norules' (acyclic, include also under render and in macro "
-        "bodies), 1/8 'recursive' (any reference, also to the root and to itself). Each program is analysed (analyze and analyze_async) "
-        "and rendered with 3-5 data sets (render and render_async) under the trace wrappers; quick 120 programs, thorough 2000. "
-        "distinct = distinct program text; non-trivial = at least two include/render tags."
+        "programs = a root template and 1..3 partials over: output/echo with filters (path arguments), assign, capture, "
+        "increment/decrement (read back through the counters), for/else and tablerow over paths and ranges (a..b), if/unless with "
+        "elsif/else (and/or/==), case/when/else (several values per when), cycle (with group), liquid tag bodies (line syntax, nested "
+        "blocks), with, macro (defaults)/call (positional, keyword), include (with .. as, arguments), render (with/for .. as, "
+        "arguments); paths with keys, indexes and one level of nested paths (a[b.c]), forloop/parentloop/tablerowloop reads; names "
+        "drawn from a small pool so that render arguments, locals, loop variables, parameters, counters and partial arguments shadow "
+        "each other; partials are included and rendered several times from different scopes. Seventeen seeds (witnesses of the repaired "
+        "defects, their neighbours, one program per added construct) run first; then seeded random programs: 6/8 'tame' (acyclic, "
+        "include only where it can run), 1/8 'norules' (acyclic, include also under render and in macro bodies), 1/8 'recursive'. "
+        "Three raw-source programs with inline snippets (outside the model) are judged by the oracle only. Each program is analysed "
+        "(analyze and analyze_async) and rendered with 3-5 data sets (render and render_async) under the trace wrappers; quick 80 "
+        "programs, thorough 1500. distinct = distinct program text; non-trivial = at least two include/render tags."
     )
     ck.exhaustive = False
     ck.trusted_base = [
@@ -1031,9 +1272,11 @@ def run(ck: Check) -> None:
         "modelled not verified: dict insertion order, frozenset equality, absence of collisions of hash((name, *argument names))",
     ]
     ck.assumptions = [
-        "mini language of StaticAnalysis.v: no nested paths, ranges, elsif/unless/case/tablerow/cycle, break/continue; filter values, "
-        "captures and the forloop object are opaque (the generator keeps them out of conditions, loops and with/for bindings); path "
-        "keys other than size/first/last; template names without dots; strict mode, default limits",
+        "mini language of StaticAnalysis.v: no paths nested deeper than one level, no for/tablerow limit/offset/cols/reversed, "
+        "break/continue, ifchanged; inline snippets are outside the model (oracle only); filter values, captures and the "
+        "forloop/tablerowloop objects are opaque (the generator keeps them out of conditions, loops, ranges, case subjects and "
+        "with/for bindings); when values are literals; path keys other than size/first/last; template names without dots; strict "
+        "mode, default limits",
         "globals clause: increment counts as an assignment; names assigned inside a macro body or inside a partial included earlier "
         "count as assigned earlier in source order; a rendered partial starts from its arguments alone",
         "the model's trace is compared on renders that end normally or with the disabled include tag, of non-recursive programs; the "
@@ -1042,7 +1285,7 @@ def run(ck: Check) -> None:
     ck.proof()
 
     rng = ck.rng
-    nrand = 120 if ck.quick else 2000
+    nrand = 80 if ck.quick else 1500
     programs = [(tup(p), [dict(d) for d in ds], "seed") for p, ds in SEEDS]
     for i in range(nrand):
         wild = "recursive" if i % 8 == 7 else ("norules" if i % 8 == 3 else "")
@@ -1101,6 +1344,27 @@ def run(ck: Check) -> None:
         if m:
             ck.sample({"templates": m[1].src, "data": m[3][0][0], "trace": m[3][0][1][:12]})
 
+    for srcs, datas in RAW:
+        printed = RawPrinted(srcs)
+        env = make_env(printed)
+        a_sync = observe_analysis(env, False)
+        a_async = observe_analysis(env, True)
+        ck.note_case(json.dumps(srcs, sort_keys=True), nontrivial=True)
+        ck.count("program.raw")
+        if a_sync != a_async:
+            ck.violation("impl-violation", "c19-analyze-sync-async-differ", f"analyze() and analyze_async() differ on {srcs!r}",
+                         {"type": "raw", "templates": srcs, "data": datas[0], "sync": a_sync, "async": a_async})
+        for data in datas:
+            for label, use_async, ana in (("sync", False, a_sync), ("async", True, a_async)):
+                ev, _err = traced_render(env, printed, data, use_async)
+                ck.traces += 1
+                for sig, what in judge({}, printed, ana, model_events({}, ev), True):
+                    n = reported.get(sig + ":raw", 0)
+                    reported[sig + ":raw"] = n + 1
+                    if n < 3:
+                        ck.violation("impl-violation", sig + RAW_SUFFIX, f"{what} ({label} render of {srcs!r} with {data!r})",
+                                     {"type": "raw", "templates": srcs, "data": data, "mode": label, "analysis": ana})
+
     explained = bool(reported)
     mm = ck.coq_mismatches("cases", IMPORTS, RUN_FN, "pobs_eqb", "pcase", "pobs", cases, expected, chunk=CHUNK, preamble=preamble())
     shown = {"a": 0, "t": 0}
@@ -1136,6 +1400,22 @@ def run(ck: Check) -> None:
 
 def replay(data) -> int:
     case = data["case"]
+    if case.get("type") == "raw" and data.get("kind") == "impl-violation":
+        printed = RawPrinted(case["templates"])
+        env = make_env(printed)
+        a_sync, a_async = observe_analysis(env, False), observe_analysis(env, True)
+        print("templates:", printed.src)
+        print("data:", case["data"])
+        print("analyze():", a_sync)
+        bad = [("c19-analyze-sync-async-differ", "analyze() and analyze_async() differ")] if a_sync != a_async else []
+        for use_async, ana in ((False, a_sync), (True, a_async)):
+            ev, _err = traced_render(env, printed, case["data"], use_async)
+            bad += [(sig + RAW_SUFFIX, what) for sig, what in judge({}, printed, ana, model_events({}, ev), True)]
+        hit = [b for b in bad if b[0] == data.get("signature")]
+        for b in hit[:3]:
+            print("  ", b[1])
+        print(("VIOLATION reproduced" if hit else "not reproduced") + f" property={data['property']}")
+        return 1 if hit else 0
     if case.get("type") != "program" or data.get("kind") != "impl-violation":
         print("replay names a proof/correspondence obligation:", json.dumps(case)[:600])
         return 1
